@@ -132,8 +132,13 @@ def ending(src, napps=1, nprocs=2, order=('restart', 'shutdown'), rounds=10, los
                                                [(0,), (1,), (0, 1)] if k == 0 else [(1,), ()])
             for i in ids:
                 core.add_process(i, app_name, name, PS.STOPPED, stopwaitsecs=0)
+            # (the first process may still be STARTING when the ending phase begins: it has to be stopped all the same)
+            first_state = PS.RUNNING if lean or k > 0 or not hosts else src.pick(f'{app_name}_{name}_state',
+                                                                                  [PS.RUNNING, PS.STARTING])
             for h in hosts:
-                core.process_event(ids[h], app_name, name, PS.RUNNING)
+                core.process_event(ids[h], app_name, name, PS.STARTING)
+                if first_state == PS.RUNNING:
+                    core.process_event(ids[h], app_name, name, PS.RUNNING)
             p = core.context.applications[app_name].processes[name]
             start_seq = 1 if lean else src.pick(f'{app_name}_{name}_start_seq', [1, 2])
             stop_seq = -1 if lean else src.pick(f'{app_name}_{name}_stop_seq', [-1, 0, 1, 2])
